@@ -38,6 +38,7 @@ type c09Params struct {
 	stateMenu      bool
 	lateCloser     bool
 	discWriteFails int // socket writes of the client's disconnect responses that may fail (transient error)
+	hbWriteFails   int // socket writes of connection-state requests that may fail: the heartbeat has failed
 }
 
 func c09Run(p c09Params) func() {
@@ -52,10 +53,14 @@ func c09Run(p c09Params) func() {
 			mc.Log(InjSvc{v})
 			sock.Deliver(v)
 		}
-		discFailLeft := p.discWriteFails
+		discFailLeft, hbFailLeft := p.discWriteFails, p.hbWriteFails
 		sock.FailSend = func(v knxnet.ServicePackable) error {
 			if _, ok := v.(*knxnet.DiscRes); ok && discFailLeft > 0 && mc.Choose(2, mc.Fault) == 1 {
 				discFailLeft--
+				return fakesock.ErrSockClosed
+			}
+			if _, ok := v.(*knxnet.ConnStateReq); ok && hbFailLeft > 0 && mc.Choose(2, mc.Fault) == 1 {
+				hbFailLeft--
 				return fakesock.ErrSockClosed
 			}
 			return nil
@@ -256,6 +261,11 @@ func c09Oracle(p c09Params) func(tr *mc.Trace) []h.Violation {
 		for _, e := range tr.Log {
 			switch x := e.V.(type) {
 			case fakesock.Sent:
+				if q, ok := x.Svc.(*knxnet.ConnStateReq); ok && x.Err != nil && !relaxed {
+					// the request could not be written: for the reference machine that is a heartbeat
+					// failing at this instant (rendered as a response with a status no gateway sends)
+					injs = append(injs, inj{e.T, &knxnet.ConnStateRes{Channel: q.Channel, Status: 0xFE}})
+				}
 				if _, ok := x.Svc.(*knxnet.ConnReq); ok && x.Err == nil {
 					if sawFirstConnReq && relaxed {
 						injs = append(injs, inj{e.T, nil}) // marker: the client (re)transmitted a connect request
@@ -588,8 +598,10 @@ func c09Oracle(p c09Params) func(tr *mc.Trace) []h.Violation {
 			if !ok {
 				continue
 			}
-			if _, isDiscRes := s.Svc.(*knxnet.DiscRes); s.Err != nil && !isDiscRes {
-				continue // (a disconnect response whose write failed still counts as the client's answer)
+			_, isDiscRes := s.Svc.(*knxnet.DiscRes)
+			_, isStateReq := s.Svc.(*knxnet.ConnStateReq)
+			if s.Err != nil && !isDiscRes && !isStateReq {
+				continue // (a disconnect response or a heartbeat whose write failed still counts as attempted)
 			}
 			kind, ch := "", uint8(0)
 			switch x := s.Svc.(type) {
@@ -788,6 +800,10 @@ func init() {
 	// the write of the client's disconnect response fails: the connection is over all the same
 	dw := c09Params{H: 1000, R: 100, T: 300, horizonHB: 2, spont: true, connMenu: true, discWriteFails: 1}
 	register("both", &h.Scenario{Name: "C09-H1000-spont-disconnect-response-write-fails-F2", Prop: "C09", P: 0, F: 2, D: -1, Run: c09Run(dw), Check: c09Oracle(dw)})
+	// (hbWriteFails is not used by a registered scenario: the statement does not say whether a
+	// connection-state request that cannot be written fails the heartbeat at once - what the pinned
+	// tree does - or is simply repeated at the next resend tick; a scenario that predicted one of
+	// the two would raise an alarm on a correct client.)
 	e := c09Params{H: 1000, R: 100, T: 300, horizonHB: 2, allStatus: true, noTraffic: true}
 	register("both", &h.Scenario{Name: "C09-all-255-status-codes", Prop: "C09", P: 0, F: 0, D: -1, Run: c09Run(e), Check: c09Oracle(e)})
 	f := c09Params{H: 1000, R: 100, T: 300, horizonHB: 5, stateMenu: true, connMenu: true, spont: true}
